@@ -95,6 +95,8 @@ class Gen:
                 else:
                     has_birth = True
             name = "f%d" % i if r.random() < 0.8 or not flow_names else r.choice(flow_names)
+            if want.get("prefix_names") and flow_names and r.random() < want["prefix_names"]:
+                name = r.choice(flow_names) + r.choice(["_b", "2", "x"])      # an existing name is a proper prefix of this one
             o = {"op": "flow", "kind": kind, "name": name,
                  "param": self.rate(allow_time=not want.get("no_time", False), allow_state=allow_state, ncomp=ncomp)}
             if want.get("signed") and r.random() < want["signed"]:
